@@ -322,6 +322,41 @@ def run_pert(case, stt):
     stt.label("via_" + via)
 
 
+@st.composite
+def long_case(draw):
+    """long signals: a piece that follows 10^5 .. 2*10^6 samples, perturbed by one or two samples (a contiguity test whose tolerance grew with
+    the elapsed time would let these through), and the unperturbed split"""
+    n = draw(st.sampled_from([100003, 300000, 2**20, 2 * 10**6]))
+    spec = draw(G.signal_spec(classes=["Signal", "RadioSignal", "BasebandSignal"], nmin=1, nmax=1, nchan_max=1, max_trailing=0, start="some",
+                              dtypes=["f4", "c8"], sr=G.freq_q(0, 9.6)))
+    spec["n"] = n
+    return {"sig": spec, "cut": draw(st.integers(n * 3 // 4, n - 3)), "k": draw(st.sampled_from([1, -1, 2, -2, 3])),
+            "how": draw(st.sampled_from(["gap_or_overlap", "shift_start", "ok"]))}
+
+
+def run_long(case, stt):
+    import pulsarbat as pb
+
+    spec = case["sig"]
+    z = G.build(spec)
+    n, a, k = spec["n"], case["cut"], case["k"]
+    p0 = z[:a]
+    if case["how"] == "ok":
+        with lib("concatenate of a long split"):
+            y = pb.concatenate([p0, z[a:]])
+        check(len(y) == n and bits_equal(np.asarray(y.data), np.asarray(z.data)), "long split not reproduced")
+        assert_start(y, O.T(z.start_time), k=1, what="concatenate (long): ")
+    elif case["how"] == "gap_or_overlap":
+        must_raise("concatenate(time) with a %+d-sample gap after %d samples" % (k, a), lambda: pb.concatenate([p0, z[a + k :]]), (ValueError,))
+    else:
+        p1 = z[a:]
+        q = type(p1).like(p1, start_time=p1.start_time + k / z.sample_rate)
+        must_raise("concatenate(time) with the second piece's start moved by %+d samples after %d samples" % (k, a), lambda: pb.concatenate([p0, q]),
+                   (ValueError,))
+    stt.nt()
+    stt.label(case["how"])
+
+
 def run_misc(spec, stt):
     import pulsarbat as pb
 
@@ -348,6 +383,9 @@ SUBS = [
         "one piece perturbed by >= 1 sample/channel: start time, swap, overlap, gap, sample rate, chan_bw, centre frequency, class, repeated "
         "piece, the same NUMBER in another unit for sample_rate / chan_bw (must raise), the same rate written in another unit (must be accepted); along frequency: gap/overlap/order/start/rate/repeat; along a trailing axis: start/labels/rate -> must raise; every case "
         "non-trivial", quick=1500, thorough=30000, pieces_quick=4),
+    Sub("long_signals", long_case(), run_long,
+        "signals of 1e5 .. 2e6 samples cut in the last quarter: the split is reproduced; a gap/overlap of 1-3 samples or a start time moved by 1-3 "
+        "samples is refused however many samples precede it; all non-trivial", quick=40, thorough=400, pieces_quick=2),
     Sub("misc", G.signal_spec(nmin=1, nmax=8, nchan_max=3, max_trailing=1), run_misc, "empty list, non-signals, 'freq' on plain signals, single "
         "signal", quick=60, thorough=600, pieces_quick=1),
 ]
